@@ -5,7 +5,7 @@ from vlib.common import sh, VERIF
 
 PID = "C47"
 META = {
-    "text": "Theorems (Properties_C47.v, closed under the global context) about a line-by-line transcription of helperHandleRead / helperReturnBuffer / popRequest / helperDispatch / helperKickQueue as a step function over the chunks returned by read(2) (AuthhelperModel.v): for EVERY request table, EVERY helper byte stream none of whose lines starts with a blank (concurrent protocol; any bytes for helpers without channels) and EVERY way of cutting that stream into reads, the sequence of callbacks (request, reply text) is the one the per-line specification `spec_stream` gives for the complete lines - up to blanks at the two ends of the text; all of it when the helper was not killed meanwhile, a prefix otherwise (simulation proof: representation invariant over the unterminated line, induction over the list of reads); two fragmentations of the same bytes therefore give the same callbacks; every callback goes to a request that was waiting on the channel whose decimal number starts that reply line; lines whose number is not the id of a waiting request (unknown, already answered, negative) call nobody back; a helper without channels answers the transactions in the order in which they asked, over any sequence of submissions and reads and including squid's own queue. Three leniencies of the real reader are stated as refutations with witnesses: the channel number is read with strtol into an int, so `4294967298 X` is applied to channel 2 (known finding C47-channel-number-wrapped); `OK CR | LF` is delivered as the text `OK CR`, which Helper::Reply::finalize does not recognise as OK (known finding C47-crlf-split-result); a reply line that starts with a blank and is cut after it is read as channel 0. Tie: the extracted model (reader + Helper::Reply::finalize + redirectHandleReply/clientRedirectDone resp. externalAclHandleReply result mapping) is run against the real squid binary: a url_rewrite_program / external_acl_type helper written for the check (lab/helper_authhelper.c, a fresh process per scenario so that channel ids restart at 1) answers out of order with scripted write fragmentation (every write is read separately by squid: the helper waits for SIOCOUTQ == 0), cuts inside the channel id and inside CR LF, duplicate, unknown, negative and overflowing ids; the observable is the URL each request reaches the origin with (200/403 for the ACL).",
+    "text": "Theorems (Properties_C47.v, closed under the global context) about a line-by-line transcription of helperHandleRead / helperReturnBuffer / popRequest / helperDispatch / helperKickQueue as a step function over the chunks returned by read(2) (AuthhelperModel.v): for EVERY request table, EVERY helper byte stream none of whose lines starts with a blank (concurrent protocol; any bytes for helpers without channels) and EVERY way of cutting that stream into reads, the sequence of callbacks (request, reply text) is the one the per-line specification `spec_stream` gives for the complete lines - up to blanks at the two ends of the text; all of it when the helper was not killed meanwhile, a prefix otherwise (simulation proof: representation invariant over the unterminated line, induction over the list of reads); two fragmentations of the same bytes therefore give the same callbacks; every callback goes to a request that was waiting on the channel whose decimal number starts that reply line; lines whose number is not the id of a waiting request (unknown, already answered, negative) call nobody back; a helper without channels answers the transactions in the order in which they asked, over any sequence of submissions and reads and including squid's own queue; the channel a line names is exactly its leading decimal number, or none when that does not fit an int (C47_channel_number_exact, after /repo 2adec67; former finding C47-channel-number-wrapped is now a regression scenario). Two leniencies of the real reader are stated as refutations with witnesses: `OK CR | LF` is delivered as the text `OK CR`, which Helper::Reply::finalize does not recognise as OK (known finding C47-crlf-split-result); a reply line that starts with a blank and is cut after it is read as channel 0. Tie: the extracted model (reader + Helper::Reply::finalize + redirectHandleReply/clientRedirectDone resp. externalAclHandleReply result mapping) is run against the real squid binary: a url_rewrite_program / external_acl_type helper written for the check (lab/helper_authhelper.c, a fresh process per scenario so that channel ids restart at 1) answers out of order with scripted write fragmentation (every write is read separately by squid: the helper waits for SIOCOUTQ == 0), cuts inside the channel id and inside CR LF, duplicate, unknown, negative and overflowing ids; the observable is the URL each request reaches the origin with (200/403 for the ACL).",
     "note": "partial: the theorems are about the transcribed reader; that the event-driven proxy runs exactly this code on every path rests on the end-to-end correspondence. Not modelled: helper timeout= (stats.timedout), the 1 MB Reply::accumulate limit and the read-buffer limit, NUL bytes in the helper stream, the BH retry, quoted/escaped kv values, stateful helpers (helperStatefulHandleRead discards everything after the first line of a read - not exercised). Trusted: Coq kernel, extraction, vlib/lab.py, lab/helper_authhelper.c.",
     "technique": "Coq proof (simulation of the chunked reader by a per-line specification, induction over the list of reads with a representation invariant; vm_compute witnesses for the refutations) + end-to-end differential correspondence of the extracted model against the running squid + independent oracle",
 }
@@ -361,13 +361,6 @@ def oracle(s, obs):
         m = re.match(rb"^[ \t]*(\d+)(?:[ \t]|$)", l)
         return int(m.group(1)) if m else None
 
-    def wrapped(i):                       # what a 64-bit strtol assigned to an int makes of the number
-        if i is None:
-            return None
-        v = min(i, 2 ** 63 - 1) % 2 ** 32
-        return v - 2 ** 32 if v >= 2 ** 31 else v
-    big = any((id_of(l) or 0) > 2 ** 31 - 1 for l in lines)
-    wsig = ":channel-number-wrapped" if big else ""
     base = ("http://127.0.0.1:%05d/h47x%sx/" % (port, sid)).encode()
     for k in range(1, n + 1):
         t = toks[k - 1]
@@ -375,22 +368,17 @@ def oracle(s, obs):
             return ("oracle:odd-outcome", "request %d: unexpected outcome %s" % (k, t))
         if s["kind"] == "rw0":
             mine = [lines[k - 1]] if k - 1 < len(lines) else []
-            alias = []
         else:
-            mine = [l for l in lines if id_of(l) == k]
-            alias = [l for l in lines if id_of(l) != k and wrapped(id_of(l)) == k]
+            mine = [l for l in lines if id_of(l) == k]     # the exact decimal number, however long
         if s["kind"] == "acl":
             if t == "allow" and not any(re.search(rb"(^|[ \t])OK([ \t]|$)", l) for l in mine):
-                w = any(re.search(rb"(^|[ \t])OK([ \t]|$)", l) for l in alias)
-                return ("oracle:verdict-misapplied" + (":channel-number-wrapped" if w else ""),
-                        "request %d was allowed but no helper line carrying channel %d says OK%s"
-                        % (k, k, " (a line numbered %s does)" % [id_of(l) for l in alias] if w else ""))
+                return ("oracle:verdict-misapplied",
+                        "request %d was allowed but no helper line carrying channel %d says OK" % (k, k))
         elif t.startswith("rw:"):
             u = bytes.fromhex(t[3:])
             if not any(u in l for l in mine):
                 who = [id_of(l) for l in lines if u in l]
-                w = any(u in l for l in alias)
-                return ("oracle:reply-misapplied" + (":channel-number-wrapped" if w else ""),
+                return ("oracle:reply-misapplied",
                         "request %d (channel %d) was rewritten to %r, which the helper sent on channel(s) %s" % (k, k, u, who))
         # completeness for helpers that follow the protocol exactly
         if s["kind"] == "rw0":
@@ -405,12 +393,12 @@ def oracle(s, obs):
         crlf = any(l.endswith(b"\r") for l in complete)
         if s["kind"] == "acl":
             if (text == b"OK" or text.startswith(b"OK ")) and t != "allow":
-                return ("oracle:reply-lost" + (wsig or (":crlf" if crlf else "")),
+                return ("oracle:reply-lost" + (":crlf" if crlf else ""),
                         "request %d: the helper answered `%s` on channel %d but the request was not allowed (%s)" % (k, text[:60], k, t))
         else:
             m = re.match(rb"^OK rewrite-url=(\S+)$", text)
             if m and m.group(1).startswith(base) and t != "rw:" + m.group(1).hex():
-                return ("oracle:reply-lost" + (wsig or (":crlf" if crlf else "")),
+                return ("oracle:reply-lost" + (":crlf" if crlf else ""),
                         "request %d: the helper answered `%s` on channel %d but the request went out as %s" % (k, text[:80], k, t))
     return None
 
